@@ -96,7 +96,7 @@ func c18Hash(c *Ctx) {
 	// blocks of m‖w with |w| = 32), long
 	lens := []int{0, 1, 2, 31, 32, 33, 64, 95, 96, 97, 127, 128, 129, 223, 224, 225, 256, 1000}
 	if c.Thorough() {
-		lens = append(lens, 3, 7, 8, 63, 65, 160, 255, 257, 4096, 100000)
+		lens = append(lens, 3, 7, 8, 63, 65, 160, 255, 257, 4096, 20000)
 	}
 	for ki, k := range keys {
 		for li, n := range lens {
